@@ -345,6 +345,8 @@ def _oracle_steps(ops, cur):
             if not isinstance(got_val, list) or len(got_val) != len(want_val) or \
                     any(a is not b for a, b in zip(list(got_val), want_val)):
                 return fail('returned-s', 'slice %r, list gives %r' % (got_val, want_val))
+            if got_val is args:
+                return fail('slice-aliases', 'the slice [%s] IS the list itself; a slice of a list is a new list' % rest)
         if k == 't' and got_val != want_val:
             return fail('str-args', '%r != %r' % (got_val, want_val))
         # serialisation, always, of both commands
